@@ -147,6 +147,33 @@ def int_bitop(I, o, x, y, bits):
         return py_mod(zint(x), y + 1)
     if o == "&" and isinstance(x, int) and x >= 0 and (x & (x + 1)) == 0:
         return py_mod(zint(y), x + 1)
+    # constant masks: arithmetic on the selected bits (integer div/mod by constants; holds for
+    # negative operands too: Euclidean division by a positive constant is floor division, which is
+    # the bit of the infinite two's-complement representation Python and C promote to)
+    if o in ("&", "|", "^") and (isinstance(x, int) or isinstance(y, int)):
+        const, var = (x, y) if isinstance(x, int) else (y, x)
+        var = zint(var)
+        from .core import bv_backed
+        bv = bv_backed(var)
+        if bv is not None:
+            # flag values kept as bit-vectors (call contracts return them so): stay in that form
+            k = bv.size()
+            c = z3.BitVecVal(const % (1 << k), k)
+            if o == "&" or const >= 0:
+                r = {"&": bv & c, "|": bv | c, "^": bv ^ c}[o]
+                if o == "&" or const < (1 << k):
+                    # named so that later simplification keeps the BV2Int(constant) shape
+                    nb = z3.BitVec(I.ctx.fresh_name("flags"), k)
+                    I.ctx.assume(nb == r)
+                    return z3.BV2Int(nb, is_signed=False)
+        bit = lambda b: (var / (1 << b)) % 2
+        setbits = lambda v: [b for b in range(v.bit_length()) if (v >> b) & 1]
+        if o == "&" and const >= 0 and bin(const).count("1") <= 16:
+            return z3.Sum([z3.IntVal(0)] + [(1 << b) * bit(b) for b in setbits(const)])
+        if o == "&" and const < 0 and bin(~const).count("1") <= 16:
+            return var - z3.Sum([z3.IntVal(0)] + [(1 << b) * bit(b) for b in setbits(~const)])
+        if o == "|" and const >= 0 and bin(const).count("1") <= 16:
+            return var + z3.Sum([z3.IntVal(0)] + [(1 << b) * (1 - bit(b)) for b in setbits(const)])
     # general case through bit-vectors
     bx = z3.Int2BV(zint(x), bits)
     by = z3.Int2BV(zint(y), bits)
